@@ -1,13 +1,309 @@
 package h_prov
 
 import (
+	"context"
+	"encoding/json"
+	"fmt"
+	"strings"
 	"testing"
+	"time"
 
+	"github.com/spf13/afero"
+	"github.com/yandex/pandora/core"
 	"github.com/yandex/pandora/zverif/hutil"
+	"github.com/yandex/pandora/zverif/vs"
 )
 
-func runC13(t *testing.T, spec *hutil.Spec, out *hutil.Out) {
-	out.HarnessErr = "C13 not built"
+// ---------------------------------------------------------------------------
+// C13 tier (a): every token string up to a length bound as an ammo file.
+
+var tokenAlpha = map[string][]string{
+	"uripost":   {"0", "1", "3", "-1", "9223372036854775807", "99999999999999999999", "x", " ", "/a", "tag", "\n", "[", "[A: b]", "[A]", "abc"},
+	"raw":       {"0", "1", "18", "-1", "9223372036854775807", "99999999999999999999", "x", " ", "GET / HTTP/1.1\r\n\r\n", "tag", "\n", "GET /", "\r\n", "abc"},
+	"uri":       {"/a", "[", "[A: b]", "[:", "%zz", " ", "\n", "]", "[A]", "http://[::1", "tag"},
+	"jsonline":  {"{", "}", "[", "]", "\"uri\":", "\"/a\"", "1", ",", "\n", "null", "\"method\":\"GET\"", "\"headers\":", ":"},
+	"grpc/json": {"{", "}", "[", "]", "\"call\":", "\"x\"", "1", ",", "\n", "null", "\"payload\":", "\"tag\":", ":"},
+	"json":      {"{", "}", "[", "]", "\"a\":", "\"x\"", "1", ",", "\n", "null", ":"},
 }
 
-func replayC13(t *testing.T, rn *runner, out *hutil.Out, rp replayT) {}
+type C13Cell struct {
+	Tier    string   `json:"tier"` // tokens | prefix | scenario | config
+	Format  string   `json:"format"`
+	Tokens  []string `json:"tokens,omitempty"`
+	Prefix  []Item   `json:"prefix,omitempty"`
+	Preload bool     `json:"preload,omitempty"`
+	Mode    int      `json:"mode"` // 0: passes=2; 1: passes=0, limit=3
+	Text    string   `json:"text,omitempty"`
+	Name_   string   `json:"name,omitempty"`
+}
+
+func (c C13Cell) Name() string {
+	if c.Name_ != "" {
+		return c.Tier + "|" + c.Format + "|" + c.Name_
+	}
+	return fmt.Sprintf("%s|%s|preload=%v|mode=%d|prefix=%d|%q", c.Tier, c.Format, c.Preload, c.Mode, len(c.Prefix), strings.Join(c.Tokens, ""))
+}
+
+func (c C13Cell) file() []byte {
+	var b []byte
+	if len(c.Prefix) > 0 {
+		l := Layout{FinalNL: true, JSON: "lines"}
+		b = render(c.Format, c.Prefix, l)
+	}
+	return append(b, []byte(strings.Join(c.Tokens, ""))...)
+}
+
+func (c C13Cell) conf() map[string]any {
+	var m map[string]any
+	switch c.Format {
+	case "grpc/json":
+		m = map[string]any{"type": "grpc/json", "file": "/ammo"}
+	case "json":
+		m = map[string]any{"type": "json", "source": map[string]any{"type": "file", "path": "/ammo"}, "ammo-queue-size": 2}
+	default:
+		m = map[string]any{"type": formatType[c.Format], "file": "/ammo"}
+		if c.Preload {
+			m["preload"] = true
+		}
+	}
+	if c.Mode == 0 {
+		m["passes"] = 2
+	} else {
+		m["limit"] = 3
+	}
+	return m
+}
+
+type c13run struct {
+	cell C13Cell
+	drv  *Drv
+	cerr error
+}
+
+func genericExtract(a core.Ammo) any {
+	b, _ := json.Marshal(a)
+	return string(b)
+}
+
+func (r *c13run) scenario(x *vs.X) func(end, msg string) error {
+	c := r.cell
+	data := c.file()
+	_ = afero.WriteFile(memfs, "/ammo", data, 0o644)
+	p, err := newProvider(c.conf())
+	r.cerr, r.drv = err, nil
+	if err != nil {
+		return func(end, msg string) error {
+			if strings.Contains(err.Error(), "PANIC in provider construction") {
+				return fmt.Errorf("PANIC: %v", err)
+			}
+			return nil // rejected with an error at construction
+		}
+	}
+	ctx, cancel := context.WithCancel(context.Background())
+	x.OnAbort(cancel)
+	x.Deadline = time.Now().Add(time.Hour)
+	ex := genericExtract
+	if _, ok := formatType[c.Format]; ok {
+		ex = extractHTTP
+	}
+	d := &Drv{P: p, Consumers: 1, Release: true, Extract: ex}
+	r.drv = d
+	vs.Go("driver", func() { d.Start(ctx, cancel) })
+	return func(end, msg string) error {
+		defer cancel()
+		return r.check(end, msg)
+	}
+}
+
+func (r *c13run) check(end, msg string) error {
+	d, c := r.drv, r.cell
+	if d.RunPanic != "" {
+		return fmt.Errorf("PANIC: provider Run panicked: %s", d.RunPanic)
+	}
+	if d.ConsPanic != "" {
+		return fmt.Errorf("PANIC: Acquire panicked: %s", d.ConsPanic)
+	}
+	if end == vs.EndCap {
+		return nil
+	}
+	if end == vs.EndSpin {
+		return fmt.Errorf("SPIN: %s; delivered %d", msg, len(d.Items))
+	}
+	if end != vs.EndComplete {
+		return fmt.Errorf("HANG: execution ended with %s (%s); delivered %d, Run returned=%v err=%v", end, msg, len(d.Items), d.RunDone, d.RunErr)
+	}
+	if len(c.Prefix) > 0 {
+		want := model(c.Format, c.Prefix)
+		for i := 0; i < len(want) && i < len(d.Items); i++ {
+			g := d.Items[i].(httpRec).W
+			if g != want[i] {
+				return fmt.Errorf("PREFIX-ALTERED: well-formed entry %d before the malformed tail delivered as\n   %s\n  expected\n   %s", i, g, want[i])
+			}
+		}
+		if len(d.Items) < len(want) && d.RunErr == nil {
+			return fmt.Errorf("PREFIX-DROPPED: %d of %d well-formed entries delivered and the run ended without an error", len(d.Items), len(want))
+		}
+	}
+	return nil
+}
+
+func tokenStrings(alpha []string, maxLen int, fn func(toks []string)) (n int) {
+	var rec func(cur []string)
+	rec = func(cur []string) {
+		n++
+		fn(append([]string(nil), cur...))
+		if len(cur) == maxLen {
+			return
+		}
+		for _, a := range alpha {
+			rec(append(cur, a))
+		}
+	}
+	rec(nil) // includes the empty file
+	return n
+}
+
+func pow(a, b int) int {
+	r := 1
+	for i := 0; i < b; i++ {
+		r *= a
+	}
+	return r
+}
+
+func c13cells(thorough bool, fn func(c C13Cell)) error {
+	maxLen := 3
+	if thorough {
+		maxLen = 4
+	}
+	for _, format := range []string{"uripost", "raw", "uri", "jsonline", "grpc/json", "json"} {
+		alpha := tokenAlpha[format]
+		want := 0
+		for l := 0; l <= maxLen; l++ {
+			want += pow(len(alpha), l)
+		}
+		got := tokenStrings(alpha, maxLen, func(toks []string) {
+			for mode := 0; mode < 2; mode++ {
+				fn(C13Cell{Tier: "tokens", Format: format, Tokens: toks, Mode: mode})
+				if _, ok := formatType[format]; ok && (mode == 0 || len(toks) <= 2) {
+					fn(C13Cell{Tier: "tokens", Format: format, Tokens: toks, Mode: mode, Preload: true})
+				}
+			}
+		})
+		if got != want {
+			return fmt.Errorf("token enumerator for %s produced %d strings, closed form %d", format, got, want)
+		}
+	}
+	// valid prefix + malformed tail (streaming formats only)
+	for _, format := range []string{"uripost", "raw", "uri", "jsonline"} {
+		red := itemAlphabet(format, true)
+		var prefixes [][]Item
+		for _, a := range red {
+			if a.Dir == nil {
+				prefixes = append(prefixes, []Item{a})
+			}
+			for _, b := range red {
+				if b.Dir == nil {
+					prefixes = append(prefixes, []Item{a, b})
+				}
+			}
+		}
+		tl := 2
+		tokenStrings(tokenAlpha[format], tl, func(toks []string) {
+			if len(toks) == 0 {
+				return
+			}
+			for pi, p := range prefixes {
+				if !thorough && len(toks) == 2 && pi%3 != 0 {
+					continue
+				}
+				fn(C13Cell{Tier: "prefix", Format: format, Tokens: toks, Prefix: p, Mode: 0})
+			}
+		})
+	}
+	return nil
+}
+
+func runC13(t *testing.T, spec *hutil.Spec, out *hutil.Out) {
+	rn := newRunner(t, out)
+	idx := 0
+	var mine []C13Cell
+	if err := c13cells(spec.Thorough(), func(c C13Cell) {
+		idx++
+		if spec.Mine(idx) && (spec.Only == "" || strings.Contains(c.Name(), spec.Only)) {
+			mine = append(mine, c)
+		}
+	}); err != nil {
+		out.HarnessErr = err.Error()
+		return
+	}
+	for ci, c := range mine {
+		if out.OverBudget() {
+			return
+		}
+		out.Progress(c.Name())
+		r := &c13run{cell: c}
+		v, complete := rn.explore(0, r.scenario)
+		out.Cells++
+		if rn.e.HarnessErr {
+			out.HarnessErr = c.Name() + ": " + v.Err.Error()
+			return
+		}
+		if !complete {
+			out.Cap("cell %s: %s", c.Name(), rn.e.CapHit)
+		}
+		oc := "rejected-at-construction"
+		if r.drv != nil {
+			oc = fmt.Sprintf("delivered=%d err=%v", len(r.drv.Items), r.drv.RunErr != nil)
+			if len(r.drv.Items) > 0 || r.drv.RunErr != nil {
+				out.Outcome(c.Format, string(c.file())+"|"+oc)
+			}
+		}
+		out.Extra["outcome_"+strings.SplitN(oc, " ", 2)[0]]++
+		if v != nil {
+			site := classifyC13(c, v.Err)
+			out.Violate("C13|"+c.Tier+"|"+c.Format+"|"+classify(v.Err)+"|"+site, c.Name()+"\n"+v.Err.Error()+fmt.Sprintf("\nfile: %q", c.file()),
+				map[string]any{"mode": "C13", "cell": c})
+		}
+		if ci%4999 == 0 {
+			out.Sample(map[string]any{"cell": c.Name(), "file": string(c.file()), "outcome": oc})
+		}
+	}
+	runC13Scenario(t, spec, out)
+}
+
+// classifyC13 names the input class of a violation (used as part of its key).
+func classifyC13(c C13Cell, err error) string {
+	s := err.Error()
+	switch {
+	case strings.Contains(s, "makeslice"):
+		return "negative-or-huge-size"
+	case strings.Contains(s, "index out of range"):
+		return "index-out-of-range"
+	case strings.Contains(s, "nil pointer"):
+		return "nil-pointer"
+	case strings.Contains(s, "divide by zero"):
+		return "divide-by-zero"
+	}
+	return "other"
+}
+
+func replayC13(t *testing.T, rn *runner, out *hutil.Out, rp replayT) {
+	var w struct {
+		Cell C13Cell `json:"cell"`
+	}
+	_ = json.Unmarshal(rp.Raw, &w)
+	if w.Cell.Tier == "scenario" || w.Cell.Tier == "config" {
+		replayC13Scenario(t, out, w.Cell, rp)
+		return
+	}
+	r := &c13run{cell: w.Cell}
+	v, _ := rn.explore(0, r.scenario)
+	fmt.Printf("cell %s\nfile %q\nconstruction error: %v\n", w.Cell.Name(), w.Cell.file(), r.cerr)
+	if r.drv != nil {
+		fmt.Printf("delivered %v\nrun error: %v panic: %q %q\n", r.drv.Items, r.drv.RunErr, r.drv.RunPanic, r.drv.ConsPanic)
+	}
+	if v != nil {
+		out.Violate("C13|replay", v.Err.Error(), rp.Raw)
+	}
+}
